@@ -406,6 +406,15 @@ func (b *Builder) structHash(t *types.Struct) (ret []byte, pkg string) {
 		name := f.Name()
 		if f.Embedded() {
 			name = "-"
+			// A field embedded through an alias takes the alias name, which makes
+			// struct{A} and struct{B} different types even when A = B.
+			ft := types.Unalias(f.Type())
+			if p, ok := ft.(*types.Pointer); ok {
+				ft = types.Unalias(p.Elem())
+			}
+			if named, ok := ft.(*types.Named); !ok || named.Obj().Name() != f.Name() {
+				name = "-" + f.Name()
+			}
 		}
 		ft, _ := b.TypeName(f.Type())
 		if tag := t.Tag(i); tag != "" {
